@@ -24,7 +24,8 @@
 (*           rewritten), foreign leaves; second value from a small pool    *)
 (*           including p1's key (swap) or a wrong sort                     *)
 (*   M3      a fixed list of three-pair maps (cycles, chains).             *)
-(* Every expression of depth <= 1 gets all its maps.  Deeper expressions   *)
+(* Every expression of depth <= 1 gets all its maps (SS = 1; otherwise M2   *)
+(* for 1 in SS first pairs).  Deeper expressions                           *)
 (* are thinned deterministically: 1 in SD expressions is used; of its maps *)
 (* M1 1 in S1, M2 only for 1 in SE                                         *)
 (* expressions and there for 1 in S2 first pairs (the fixed quantifier     *)
@@ -33,7 +34,7 @@
 (***************************************************************************)
 EXTENDS Subst, FiniteSets, SequencesExt
 CONSTANTS Thorough,   \* BOOLEAN: wider leaf sets and operator sets
-          SD, S1, SE, S2, SQ, \* thinning strides (1 = keep everything)
+          SS, SD, S1, SE, S2, SQ, \* thinning strides (1 = keep everything)
           Off         \* rotation of the thinning
 
 \* ---- leaves ---------------------------------------------------------------------------
@@ -143,7 +144,7 @@ ExprSeq == SetToSeq(Shallow) \o DeepSeq
 MapsOf(i) ==
    LET e == ExprSeq[i]
        m3 == {m \in M3 : Hits(e, m)}
-   IN IF i <= NShallow THEN {<<>>} \cup M1(e) \cup M2(e) \cup m3
+   IN IF i <= NShallow THEN {<<>>} \cup M1(e) \cup M2of(e, Thin(Good1(e), SS, i + Off), Thin(Bad1(e), SS, i + Off)) \cup m3
       ELSE IF e \in DQ THEN {<<>>} \cup M1(e) \cup M2of(e, Thin(Good1(e), SQ, i + Off), Thin(Bad1(e), SQ, i + Off)) \cup m3
       ELSE Thin(M1(e), S1, i + Off)
            \cup (IF (i + Off) % SE = 0
